@@ -66,13 +66,15 @@ def keyobj(k):
         return None
     if k[0] == "I":
         return k[1]
+    if k[0] == "S":
+        return str(k[1])             # a string of digits: get_path accepts it as a list index
     t = k[1]
     f = t % 3
     if f == 0:
         return "k%d" % t
     if f == 1:
         return ("t", t)
-    return t + 0.25
+    return b"k%d" % t
 
 
 def _tkey(o):
@@ -88,6 +90,8 @@ def key_tok(o):
         return ["N"]
     if type(o) is int:
         return ["I", o]
+    if type(o) is str and o.isdigit():
+        return ["S", int(o)]
     return ["T", _KEY_INV[_tkey(o)]]
 
 
@@ -283,6 +287,16 @@ def run_impl(case):
                 got = ["raise"]
             entries.append([[key_tok(x) for x in path], ref_of(value), got])
         obs["research"] = ["ok", entries]
+    probes = []
+    sentinel = object()
+    for pth in case.get("probes", []):
+        tp = tuple(keyobj(k) for k in pth)
+        try:
+            got = ["ok", ref_of(get_path(root, tp))]
+        except PathAccessError:
+            got = ["raise"]
+        probes.append([pth, got, get_path(root, tp, default=sentinel) is sentinel])
+    obs["probes"] = probes
     obs["in_final"] = Ser(ids=s_in.ids).ser(root)
     if case.get("dc"):
         obs["deepcopy"] = Ser(alias=in_ids).ser(copy.deepcopy(root))
@@ -369,9 +383,12 @@ def to_coq(case, obs):
     else:
         ents = "(Raise %s)" % EXN[obs["research"][1]]
     dc = "(Some %s)" % cobj(obs["deepcopy"]) if "deepcopy" in obs else "None"
-    return "mkCase %s %s %s %s %s %s %s %s %s" % (
+    probes = "[" + "; ".join(
+        "(%s, %s, %s)" % (cpath(p), "Ok %s" % coref(g[1]) if g[0] == "ok" else "Raise KeyError",
+                          "true" if d else "false") for p, g, d in obs.get("probes", [])) + "]"
+    return "mkCase %s %s %s %s %s %s %s %s %s %s" % (
         cobj(obs["in"]), visit, out, calls, cobj(obs["in_after"]), cpred(case["query"]), ents,
-        cobj(obs["in_final"]), dc)
+        cobj(obs["in_final"]), probes, dc)
 
 
 # --------------------------------------------------------------------------
@@ -405,7 +422,12 @@ def gen_pred(rng, depth=0):
 
 
 def gen_key(rng):
-    return ["I", rng.randint(0, 3)] if rng.random() < 0.5 else ["T", rng.randint(0, 8)]
+    r = rng.random()
+    if r < 0.4:
+        return ["I", rng.randint(0, 3)]
+    if r < 0.55:
+        return ["S", rng.randint(0, 3)]
+    return ["T", rng.randint(0, 8)]
 
 
 def gen_leaf(rng):
@@ -557,6 +579,36 @@ def small_graphs():
                     yield {"nodes": nodes, "root": ["N", 0], "visit": pr, "query": ["true"], "dc": pr is None}
 
 
+def gen_probes(rng, nodes, root, count):
+    """paths for get_path: random walks through the graph description, then possibly one segment too far,
+    an index out of range, a key that is absent, or a step into a set.  Never an int segment into a leaf
+    (str/bytes leaves are indexable in Python; the model treats leaves as atoms)."""
+    out = []
+    for _ in range(count):
+        cur, path = root, []
+        for _step in range(rng.randint(0, 5)):
+            if cur[0] == "L":
+                if rng.random() < 0.5:
+                    path.append(["T", rng.randint(0, 8)])     # never an index into a leaf
+                break
+            nd = nodes[cur[1]]
+            r = rng.random()
+            if not nd["c"] or r < 0.15:
+                path.append(gen_key(rng) if rng.random() < 0.6 else ["I", len(nd["c"]) + rng.randint(0, 1)])
+                break
+            j = rng.randrange(len(nd["c"]))
+            if nd["k"] == "dict":
+                path.append(nd["c"][j][0])
+                cur = nd["c"][j][1]
+            else:
+                path.append(["I", j] if rng.random() < 0.75 else ["S", j])
+                if nd["k"] in ("set", "frozenset"):
+                    break
+                cur = nd["c"][j]
+        out.append(path)
+    return out
+
+
 def generate(rng, tier, n):
     if tier == "thorough":
         yield from small_graphs()
@@ -570,7 +622,8 @@ def generate(rng, tier, n):
                 if buildable(nodes):
                     break
         yield {"nodes": nodes, "root": root, "visit": gen_prog(rng),
-               "query": ["true"] if rng.random() < 0.35 else gen_pred(rng), "dc": rng.random() < 0.3}
+               "query": ["true"] if rng.random() < 0.35 else gen_pred(rng), "dc": rng.random() < 0.3,
+               "probes": gen_probes(rng, nodes, root, rng.randint(0, 4))}
 
 
 # --------------------------------------------------------------------------
